@@ -31,7 +31,7 @@ LEVEL_NOTE = ("Partial in the sense of DESIGN section 8: durability after power 
               "assumptions: rename within a directory is atomic; os.CreateTemp never re-uses a name; the content streamed into Set is the content "
               "that was hashed (no concurrent modification of outputs); no deletion from the CAS during a build.")
 TECHNIQUE = "Lean 4 invariant proofs over two transition systems + trace-inclusion correspondence under fault enumeration + on-disk audit oracle"
-PROP_MODULES = ["GrogModel.Props.C07", "GrogModel.Props.ComposeStores"]
+PROP_MODULES = ["GrogModel.Props.C07", "GrogModel.Props.ComposeStores", "GrogModel.Props.ComposeExecStore", "GrogModel.ExecStore"]
 OBLIGATIONS = [
     "Grog.C07.visible_is_complete_set",
     "Grog.C07.cas_content_addressed",
@@ -40,6 +40,12 @@ OBLIGATIONS = [
     "Grog.C07.recovery",
     "Grog.Compose.recovery_cache_sound",
     "Grog.Compose.recovery_next_build_eq_clean",
+    "Grog.Exec.execTarget_cache_eq_reqs",
+    "Grog.Exec.completeReqs_order",
+    "Grog.Compose.histReqs_sound",
+    "Grog.Compose.histEvs_writesSound",
+    "Grog.Compose.recovery_cache_sound_of_history",
+    "Grog.Compose.recovery_next_build_eq_clean_of_history",
 ]
 ASSUMPTIONS = [
     "rename(2) within one directory is atomic; CreateTemp names are never re-used (trusted base)",
